@@ -1,5 +1,6 @@
 import QuillModel.Props.C08Log
 import QuillModel.Backend.LiftObsRun
+import QuillModel.Backend.LiftObsRet0
 /-!
 # C08 (trace level) — the outcome and accounting theorems on the OBSERVABLE strings of whole runs
 
@@ -19,8 +20,7 @@ actor of the initial state owns a context or is parked in a call (true when ther
 is needed: an actor of an arbitrary initial state could carry a context index that does not exist (its refused call
 prints `ret=0` and no counter moves) or a parked empty statement (accepted, prints `bytes=0`).
 
-**partial**: the equality form of the `ret=0` count (`C08_ret0_count_eq_discarded_partial`, stated in a comment at the end).
-Helper lemmas: `Backend/LiftObs{Defs,Walk,View,Step,Front,Str,Run}.lean`.
+Nothing is left partial. Helper lemmas: `Backend/LiftObs{Defs,Walk,View,Step,Front,Str,Run,Ret0}.lean`.
 -/
 namespace Backend
 open Backend.PA Backend.PC
@@ -234,14 +234,32 @@ example : Fresh (c08Init true true) ∧
       (fun t => ((t.buf ++ t.qStmts).filter (fun x => isLogKind x.kind)).length)).sum) = 0 := by
   refine ⟨c08Init_fresh true true, by decide, by decide, by decide, by decide, by decide⟩
 
-/- **partial — not proved** `C08_ret0_count_eq_discarded_partial`: for a run without static-macro log operations,
-     (∀ o ∈ ops, NoStatic o) →   -- decidable: no `FOp.log _ _ _ _ false`, `FOp.logNamed`, `FOp.logBt` at top level or in a table
-     (runObs s0 ops).2.countP isRet0Obs + (injT (runOps s0 ops).log).countP isRet0Obs =
-       ((ctrs (runOps s0 ops)).map (fun c => c.2.1)).sum
-   (same premises as `C08_drops_are_observed`). Missing lemma: the run invariant "no actor is parked with continuation 5"
-   (`∀ x ∈ s.actors, x.pend ≠ .stall _ 5 ∧ x.pend ≠ .retry _ 5`) is kept by `front_step` for the non-static operations, so
-   that `contOf s f ≠ 5` for every operation of such a run and `PC.Out.drop5` never occurs; with it `StepOK (fun d _ => d)
-   isRet0Obs` holds on those steps and `Pd.run` gives the equality exactly as for `C08_drops_are_observed`. The inequality
-   `C08_ret0_lines_le_discarded` holds without the premise. -/
+/-- **(T2, counting form, equality)** In a run without static-macro log operations (`PC.opOK`: no `LOG_<LEVEL>`, no named
+    `LOG_INFO`, no `LOG_BACKTRACE`, neither at top level nor in an injection table — a decidable premise on `ops`) every
+    discarded statement is a `ret=0` line of the trace and vice versa: the number of `ret=0` lines = Σ `discarded`. -/
+theorem C08_ret0_count_eq_discarded (s0 : BSt) (hd : s0.cfg.dropping = true) (hs : Started s0) (hl : s0.log = [])
+    (hn : NoCallInFlight s0) (ops : List Op) (hok : ∀ o ∈ ops, opOK o = true) :
+    (runObs s0 ops).2.countP isRet0Obs + (injT (runOps s0 ops).log).countP isRet0Obs =
+      ((ctrs (runOps s0 ops)).map (fun c => c.2.1)).sum := by
+  have hn5 : N5 s0 := fun x hx => by rw [(hn x hx).2]; simp [pendCont]
+  have h := (P0.run ops 0 s0 hok ⟨pd_start rfl s0 hd hs hl hn, hn5⟩).1.2.2
+  have h' : dsum (runOps s0 ops) =
+      cntT isRet0Obs (injT (runOps s0 ops).log) + (0 + cntT isRet0Obs (runObs s0 ops).2) := h
+  rw [← C08_dsum_eq_ctrs, ← C08_cntT_eq_countP, ← C08_cntT_eq_countP]
+  omega
+
+/-- non-vacuity: `f23Sched` has no static-macro log operation; two `ret=0` lines, two statements discarded -/
+example : (∀ o ∈ f23Sched, opOK o = true) ∧
+    (runObs (c08Init true true) f23Sched).2.countP isRet0Obs + (injT (runOps (c08Init true true) f23Sched).log).countP isRet0Obs = 2 ∧
+    ((ctrs (runOps (c08Init true true) f23Sched)).map (fun c => c.2.1)).sum = 2 := by
+  refine ⟨by decide, by decide, by decide⟩
+
+/-- the premise is needed: a refused static-macro call is discarded without a `ret=0` line (`id=2 ev=1 bytes=0`) -/
+example :
+    (runObs (c08Init true true) [.front (.tstart 2), .front (.log 2 0 4 300 true), .front (.log 2 0 4 300 false)]).2 =
+      ["ok", "id=0 ret=1 ev=1 bytes=338", "id=1 ev=1 bytes=0"] ∧
+    ((ctrs (runOps (c08Init true true) [.front (.tstart 2), .front (.log 2 0 4 300 true), .front (.log 2 0 4 300 false)])).map
+      (fun c => c.2.1)).sum = 1 := by
+  refine ⟨by decide, by decide⟩
 
 end Backend
